@@ -138,6 +138,8 @@ def lean_batch(requests, timeout=3000):
     if not requests:
         return []
     data = "\n".join(json.dumps(r, separators=(",", ":")) for r in requests) + "\n"
+    if os.environ.get("VERIF_DUMP_LEAN"):
+        open(os.environ["VERIF_DUMP_LEAN"], "a").write(data)
     rc, out, err = sh(["lake", "env", "lean", "--run", "Main.lean"], cwd=LEAN, timeout=timeout, input=data)
     lines = [l for l in out.split("\n") if l.strip()]
     if rc != 0 or len(lines) != len(requests):
